@@ -388,9 +388,8 @@ def check_case(env, prog, case, label, use_function=False):
                 if not cls:
                     cls.append("multiplicity")
                 failing = [prog.vby[n] for n in case["fail"] if n in prog.vby and n in exp_names]
-                viol({"kind": "errors", "what": cls, "field_decl": any(v.get("field") for v in failing), "dynamic_aliaser": bool(spec.get("aliaser")),
-                      "static_alias": "static_alias" in prog.flags},
-                     missing=[[list(p), m] for p, m in missing.elements()], extra=[[list(p), m] for p, m in extra.elements()], expected=P.brief())
+                viol({"kind": "errors", "what": cls, "field_decl": any(v.get("field") for v in failing)},
+                     dynamic_aliaser=bool(spec.get("aliaser")), static_alias="static_alias" in prog.flags, missing=[[list(p), m] for p, m in missing.elements()], extra=[[list(p), m] for p, m in extra.elements()], expected=P.brief())
 
     # ---- 7. constructed only when there is no error at all
     C("ctor_checks")
